@@ -358,13 +358,31 @@ func checkContainerFS(c *Check) (int64, int64) {
 	// Mount.Mount: ro-remount guarded by the bind+rdonly test
 	cmask := int64(-1)
 	if mm := p.Func("pkg/mount", "Mount.Mount"); mm != nil {
+		// the two mount calls, in Mount itself or in a helper of the package it calls: the one whose flag word
+		// carries MS_REMOUNT is the read-only remount
 		var first, second ssa.CallInstruction
-		for _, ci := range callInstrs(mm) {
-			if isCallTo(ci, "syscall.Mount") {
-				if first == nil {
-					first = ci
-				} else {
+		hasRemountBit := func(v ssa.Value) bool {
+			found := false
+			var wk func(v ssa.Value, d int)
+			wk = func(v ssa.Value, d int) {
+				v = stripConv(v)
+				if cv, ok := constInt(v); ok && cv&MS("REMOUNT") != 0 {
+					found = true
+				}
+				if bo, ok := v.(*ssa.BinOp); ok && bo.Op == token.OR && d < 6 {
+					wk(bo.X, d+1)
+					wk(bo.Y, d+1)
+				}
+			}
+			wk(v, 0)
+			return found
+		}
+		for _, ci := range callInstrsDeep(mm, 1) {
+			if isCallTo(ci, "syscall.Mount") && len(ci.Common().Args) > 3 {
+				if hasRemountBit(ci.Common().Args[3]) {
 					second = ci
+				} else if first == nil {
+					first = ci
 				}
 			}
 		}
@@ -372,10 +390,41 @@ func checkContainerFS(c *Check) (int64, int64) {
 		if first == nil || second == nil {
 			c.Fail("2/container-sequence", "pkg/mount.Mount.Mount:sites", p.Pos(mm.Pos()), "expected a mount and a read-only remount call")
 		} else {
-			conds := extraConds(controlDeps(mm), second.Block())
-			okG := len(conds) == 1 && strings.HasSuffix(conds[0], fmt.Sprintf(".Flags & %#x) == %#x", bindRo, bindRo))
-			c.Cond(okG, "2/container-sequence", "pkg/mount.Mount.Mount:ro-remount-guard", p.Pos(second.Pos()), "read-only binds are remounted exactly when Flags ⊇ MS_BIND|MS_RDONLY", "the read-only remount runs under "+strings.Join(conds, " ∧ "))
-			c.Cond(len(extraConds(controlDeps(mm), first.Block())) == 0 && errChecked(first) && errChecked(second), "2/container-sequence", "pkg/mount.Mount.Mount:errors", p.Pos(mm.Pos()), "mount and remount errors are returned", "a mount error is dropped or the mount is conditional")
+			// the remount runs exactly for entries whose flags contain MS_BIND and MS_RDONLY: Mount is evaluated for
+			// each combination of the two bits (plus an unrelated one), whatever form the test takes
+			okG, badSc := true, ""
+			for _, fl := range []int64{0, MS("BIND"), MS("RDONLY"), bindRo, bindRo | MS("NOSUID"), MS("NOSUID")} {
+				fl := fl
+				ran, rets := false, 0
+				w := &walker{fn: mm, MaxVisits: 4}
+				w.Seed = func(w *walker, st *wstate, v ssa.Value) *absVal {
+					if u, ok := v.(*ssa.UnOp); ok && u.Op == token.MUL {
+						if fa, ok := u.X.(*ssa.FieldAddr); ok && fieldName(fa.X.Type(), fa.Field) == "Flags" && strings.HasSuffix(derefType(fa.X.Type()).String(), "mount.Mount") {
+							return avInt(fl)
+						}
+					}
+					return nil
+				}
+				w.OnInstr = func(w *walker, st *wstate, in ssa.Instruction) {
+					if in == second.(ssa.Instruction) {
+						st.note("remount")
+					}
+				}
+				w.OnReturn = func(w *walker, st *wstate, ret *ssa.Return, rs []*absVal) {
+					// only returns after the first mount succeeded matter
+					rets++
+					if st.noted("remount") {
+						ran = true
+					}
+				}
+				w.Run()
+				if want := fl&bindRo == bindRo; ran != want || rets == 0 || w.Truncated {
+					okG = false
+					badSc = fmt.Sprintf("flags %#x: remount reachable=%v, want %v", fl, ran, want)
+				}
+			}
+			c.Cond(okG, "2/container-sequence", "pkg/mount.Mount.Mount:ro-remount-guard", p.Pos(second.Pos()), "read-only binds are remounted exactly when Flags ⊇ MS_BIND|MS_RDONLY (6 flag words evaluated)", "the read-only remount does not run exactly for MS_BIND|MS_RDONLY entries: "+badSc)
+			c.Cond(len(extraConds(controlDeps(mm), first.Block())) == 0 && errChecked(first) && (errChecked(second) || errReturnedDeep(p, second)), "2/container-sequence", "pkg/mount.Mount.Mount:errors", p.Pos(mm.Pos()), "mount and remount errors are returned", "a mount error is dropped or the mount is conditional")
 			bits := int64(0)
 			rest := second.Common().Args[3]
 			hasMask := false
@@ -777,4 +826,15 @@ func checkMountBuilder(c *Check) {
 			fmt.Sprintf("SyscallParams.%s is written at %v: the raw mount no longer carries exactly the entry's %s (e.g. a read-only request lost on the way to the child)", f, ws, f))
 	}
 	c.Expect("3/builder-flags", 11)
+}
+
+// errReturnedDeep: the call's error is returned by the function it sits in (path-sensitively), i.e. handed to the
+// caller of a helper.
+func errReturnedDeep(p *Prog, ci ssa.CallInstruction) bool {
+	v, ok := ci.(ssa.Value)
+	if !ok {
+		return false
+	}
+	ok2, _ := errPropagated(p, v)
+	return ok2
 }
